@@ -147,12 +147,22 @@ impl Feat {
     }
 }
 
+/// GFF3 column 1 as the specification wants it written: every byte outside [a-zA-Z0-9.:^*$@!+_?-|] as %XX (independent of the library)
+fn seqid_encode(v: &[u8]) -> Vec<u8> {
+    let mut o = Vec::new();
+    for &b in v { if b.is_ascii_alphanumeric() || b".:^*$@!+_?-|".contains(&b) { o.push(b); } else { o.extend_from_slice(format!("%{b:02X}").as_bytes()); } }
+    o
+}
+
 fn same_score(a: Option<f32>, b: Option<f32>) -> bool { match (a, b) { (None, None) => true, (Some(x), Some(y)) => x.to_bits() == y.to_bits() || (x.is_nan() && y.is_nan()) || (x == 0.0 && y == 0.0), _ => false } }
 
 /// (aspect, class of the written value, wrote, read)
 fn diff(e: &View, g: &View) -> Vec<(&'static str, &'static str, String, String)> {
     let mut d = Vec::new();
-    for (a, x, y) in [("reference sequence name", &e.seqid, &g.seqid), ("source", &e.source, &g.source), ("type", &e.ty, &g.ty)] { if x != y { d.push((a, class(x), show(x), show(y))); } }
+    // (F47: the signature of the recorded finding — the seqid comes back exactly as the GFF3 writer percent-encodes it — has its own
+    // aspect, so that any OTHER way of getting the reference sequence name wrong is reported separately)
+    if e.seqid != g.seqid { d.push((if g.seqid == seqid_encode(&e.seqid) { "reference sequence name (read back still percent-encoded)" } else { "reference sequence name" }, class(&e.seqid), show(&e.seqid), show(&g.seqid))); }
+    for (a, x, y) in [("source", &e.source, &g.source), ("type", &e.ty, &g.ty)] { if x != y { d.push((a, class(x), show(x), show(y))); } }
     if e.start != g.start { d.push(("start", "", e.start.to_string(), g.start.to_string())); }
     if e.end != g.end { d.push(("end", "", e.end.to_string(), g.end.to_string())); }
     if !same_score(e.score, g.score) { d.push(("score", "", format!("{:?}", e.score), format!("{:?}", g.score))); }
@@ -326,13 +336,20 @@ fn check_gff_line(log: &mut Log, route: &str, line: &gff::Line, item: &Item, byt
             }
             // the lazy record is itself a record the writer accepts: it must be written as the same line
             let mut w = gff::io::Writer::new(Vec::new());
-            match w.write_feature_record(&rec) { Ok(()) => if w.get_ref() != bytes { let (b, c) = f.blame_encoded(); log.fail(&format!("GFF3 re-serialised lazy record {b}"), route, c, || format!("GFF3: writing the lazy record of line {} gives {}", show(bytes), show(w.get_ref()))); },
+            match w.write_feature_record(&rec) { Ok(()) => if w.get_ref() != bytes {
+                    let (b, c) = f.blame_encoded();
+                    // (F47, second face: the lazy record hands the writer the still-encoded seqid, which is encoded again)
+                    let tab = bytes.iter().position(|x| *x == b'\t').unwrap_or(0);
+                    let twice: Vec<u8> = seqid_encode(&bytes[..tab]).into_iter().chain(bytes[tab..].iter().copied()).collect();
+                    if w.get_ref() == &twice { log.fail("GFF3 re-serialised lazy record seqid twice", route, c, || format!("GFF3: writing the lazy record of a line percent-encodes the reference sequence name a second time: line {} gives {}", show(bytes), show(w.get_ref()))); }
+                    else { log.fail(&format!("GFF3 re-serialised lazy record {b}"), route, c, || format!("GFF3: writing the lazy record of line {} gives {}", show(bytes), show(w.get_ref()))); }
+                },
                 Err(er) => report_err(log, fmt, route, &format!("write_feature_record(lazy record) fails: {er}"), bytes) }
         }
         Item::Dir(k, v) => {
             if line.kind() != Kind::Directive || line.as_record().is_some() || line.as_comment().is_some() { log.fail("GFF3 line kind of a directive", route, "", || format!("GFF3: a written directive is classified as {:?}: line {}", line.kind(), show(bytes))); return; }
             let Some(d) = line.as_directive() else { return };
-            if d.key().as_bytes() != &k[..] || !dir_ok(v, d.value().map(|s| s.as_bytes())) { log.fail(&format!("GFF3 lazy directive {}", dir_kind(v)), route, "", || format!("GFF3: directive {} {:?} written as {} reads back (lazy) as key {} value {:?}", show(k), v, show(bytes), show(d.key()), d.value())); }
+            if d.key().as_bytes() != &k[..] || !dir_ok(v, d.value().map(|s| s.as_bytes())) { log.fail(&format!("GFF3 lazy directive {}", dir_kind(v)), route, "", || format!("GFF3: directive [{}] reads back different (lazy): {} {:?} written as {} reads back as key {} value {:?}", dir_kind(v), show(k), v, show(bytes), show(d.key()), d.value())); }
         }
         Item::Comment(c) => {
             if line.kind() != Kind::Comment || line.as_record().is_some() || line.as_directive().is_some() { log.fail("GFF3 line kind of a comment", route, "", || format!("GFF3: a written comment is classified as {:?}: line {}", line.kind(), show(bytes))); return; }
@@ -341,7 +358,10 @@ fn check_gff_line(log: &mut Log, route: &str, line: &gff::Line, item: &Item, byt
         Item::Raw(_) => {}
     }
 }
-fn dir_kind(v: &Option<DirVal>) -> &'static str { match v { None => "without value", Some(DirVal::Version(_)) => "gff-version", Some(DirVal::Region(_)) => "sequence-region", Some(DirVal::Build(_)) => "genome-build", Some(DirVal::Text(_)) => "with text value" } }
+fn dir_kind(v: &Option<DirVal>) -> &'static str { match v { None => "without value", Some(DirVal::Version(_)) => "gff-version",
+    // (F50: a sequence-region whose name holds whitespace is the recorded finding; any other sequence-region failure is reported separately)
+    Some(DirVal::Region(r)) if r.reference_sequence_name().bytes().any(|b| b.is_ascii_whitespace()) => "sequence-region (whitespace in the name)",
+    Some(DirVal::Region(_)) => "sequence-region", Some(DirVal::Build(_)) => "genome-build", Some(DirVal::Text(_)) => "with text value" } }
 impl Feat {
     /// which field makes the re-serialised lazy record differ (the first one the writer encodes)
     fn blame_encoded(&self) -> (&'static str, &'static str) {
@@ -369,7 +389,14 @@ fn gff_file(label: &str, items: &[Item], log: &mut Log, st: &mut Stats, stage: &
         if let Item::Rec(_) = it { st.accepted += 1; }
         let cols = if matches!(it, Item::Rec(_)) { Some(9) } else { None };
         if let Some(p) = structure(&bytes, cols) {
-            match it { Item::Rec(f) => { st.broken += 1; let (field, c) = f.blame(); log.fail(&format!("{fmt} line structure {field}"), "writer", c, || format!("{fmt} writer: a record whose {field} is {} is written as {} which has {p}", show(match field { "reference sequence name" => &f.seqid, "source" => &f.source, "type" => &f.ty, _ => b"(see line)" }), show(&bytes))); }
+            match it { Item::Rec(f) => { st.broken += 1; let (field, c) = f.blame();
+                    // (F48: the signature of the recorded finding — a source / type holding a tab or line terminator appears VERBATIM in the
+                    // line — has its own key; a line broken in any other way is reported separately)
+                    let t1 = bytes.iter().position(|x| *x == b'\t').map(|i| i + 1).unwrap_or(0);
+                    let verbatim = match field { "source" => bytes[t1..].starts_with(&f.source) && bytes[t1 + f.source.len()..].starts_with(b"\t"), "type" => { let pat: Vec<u8> = [&b"\t"[..], &f.ty[..], &b"\t"[..]].concat(); bytes.windows(pat.len()).any(|w| w == &pat[..]) } _ => false };
+                    let key = if verbatim { format!("{fmt} line structure {field} verbatim") } else { format!("{fmt} line structure {field}") };
+                    let what = if verbatim { "written verbatim" } else { "written" };
+                    log.fail(&key, "writer", c, || format!("{fmt} writer: a record whose {field} holds a tab or line terminator is {what}: {field} {} gives the line {} which has {p}", show(match field { "reference sequence name" => &f.seqid, "source" => &f.source, "type" => &f.ty, _ => b"(see line)" }), show(&bytes))); }
                 _ => log.fail(&format!("{fmt} line structure directive/comment"), "writer", "", || format!("{fmt} writer: {it:?} is written as {} which has {p}", show(&bytes))) }
             w.get_mut().truncate(before); continue;
         }
@@ -404,7 +431,7 @@ fn gff_file(label: &str, items: &[Item], log: &mut Log, st: &mut Stats, stage: &
         (Item::Rec(f), Ok(gff::LineBuf::Record(rb))) => check_owned(log, fmt, "line_bufs()", &f.view(), rb, b),
         (Item::Dir(k, v), Ok(gff::LineBuf::Directive(d))) => {
             let ok = d.key().as_bytes() == &k[..] && match (v, d.value()) { (None, None) => true, (Some(e), Some(gff::directive_buf::Value::String(s))) => e.matches_text(s), (Some(e), Some(other)) => &e.to_value() == other, _ => false };
-            if !ok { log.fail(&format!("GFF3 owned directive {}", dir_kind(v)), "line_bufs()", "", || format!("GFF3: directive {} {v:?} written as {} reads back as {d:?}", show(k), show(b))); } }
+            if !ok { log.fail(&format!("GFF3 owned directive {}", dir_kind(v)), "line_bufs()", "", || format!("GFF3: directive [{}] reads back different: {} {v:?} written as {} reads back as {d:?}", dir_kind(v), show(k), show(b))); } }
         (Item::Comment(c), Ok(gff::LineBuf::Comment(s))) => { if s.as_bytes() != &c[..] { log.fail("GFF3 owned comment", "line_bufs()", class(c), || format!("GFF3: LineBuf::Comment({}) written as {} reads back as LineBuf::Comment({})", show(c), show(b), show(s))); } }
         (_, Ok(other)) => log.fail("GFF3 owned line kind", "line_bufs()", "", || format!("GFF3: {it:?} written as {} reads back as a different kind of line: {other:?}", show(b))),
     } } }
